@@ -340,6 +340,25 @@ def _coverage():
     return _COV["cov"]
 
 
+def _harness_reads_missing_private_name(e) -> bool:
+    """True when `e` is an AttributeError about a name starting with an underscore raised by a frame of /verif itself (the
+    innermost frame of the traceback is harness code, i.e. the harness evaluated `obj._name`), not by library code."""
+    if not isinstance(e, AttributeError):
+        return False
+    name = getattr(e, "name", None)
+    if not (isinstance(name, str) and name.startswith("_") and not name.startswith("__")):
+        return False
+    tb = e.__traceback__
+    last = None
+    while tb is not None:
+        last = tb
+        tb = tb.tb_next
+    if last is None:
+        return False
+    here = os.path.dirname(os.path.dirname(os.path.abspath(__file__)))
+    return os.path.abspath(last.tb_frame.f_code.co_filename).startswith(here + os.sep)
+
+
 def _run_chunk(args):
     idx, chunk = args
     mod = _WORK["mod"]
@@ -352,6 +371,14 @@ def _run_chunk(args):
         except NonDeterminism as e:
             sh.violation("NONDETERMINISM", str(e), None)
         except Exception as e:  # a crash of the harness or of the library outside what the check anticipates
+            if _harness_reads_missing_private_name(e):
+                # the HARNESS (not the library) reached for a private attribute that this tree does not have: a renamed
+                # private field is no violation of any property. The case is dropped, counted and reported as a cap
+                # (coverage incomplete), never as an alarm.
+                sh.count("cases_dropped_private_name_missing")
+                sh.cap(f"harness seam not found in this tree ({e}): the cases that need it were dropped")
+                sh.count("cases")
+                continue
             tb = traceback.format_exc(limit=8)
             sh.violation(
                 f"{mod.PID}:harness-exception:{case.get('sub', '')}:{type(e).__name__}",
